@@ -655,7 +655,10 @@ class TdmsChannel(object):
             Set this parameter to False to return raw unscaled data.
             For DAQmx data a dictionary of scaler id to raw scaler data will be returned.
         """
-        if self._raw_data is None:
+        if self._raw_data is None and self.data_type is None:
+            # A channel that was never given a data type cannot have any data
+            raw_data = None
+        elif self._raw_data is None:
             raw_data = self._read_channel_data(offset, length)
         else:
             raw_data = slice_raw_data(self._raw_data, offset, length)
